@@ -697,4 +697,73 @@ func checkC12(c *Ctx, r *Report) {
 	r7 := r.Rule("C12-R7", "E4", 6, "directConnNotifs.m only under its mutex")
 	lockRule(c, r7, lockSpec{Pkg: swarmP, Type: "Swarm", Mutex: "directConnNotifs.Mutex", Guarded: []string{"directConnNotifs.m"},
 		Exempt: map[string]string{swarmP + ".NewSwarm": "constructor"}})
+
+	// ---- R8 ---------------------------------------------------------------
+	r8 := r.Rule("C12-R8", "E7b", 2, "choice among connections: isBetterConn(a, b) answers true when only b is limited and false when only a is; among equally limited ones true when only a is direct and false when only b is")
+	if f := r8.need(swarmP + ".isBetterConn"); f != nil && len(f.Params) == 2 {
+		isParamK := func(v ssa.Value, k int) bool {
+			v = resolveLoad(strip2(v))
+			return v == ssa.Value(f.Params[k]) || isParamCellLoad(c, v, f.Params[k])
+		}
+		limitedOf := func(k int) atomPred {
+			return func(v ssa.Value) (bool, bool) {
+				v = resolveLoad(strip2(v))
+				fv, ok := v.(*ssa.Field)
+				if !ok {
+					fl, base := loadOfField(v)
+					if fl == nil || fl.Name() != "Limited" {
+						return false, false
+					}
+					ci := isResultOfCall(resolveLoad(strip2(base)), 0, "(*"+swarmP+".Conn).Stat")
+					return ci != nil && isParamK(callArgs(ci)[0], k), true
+				}
+				st, isSt := fv.X.Type().Underlying().(*types.Struct)
+				if !isSt || st.Field(fv.Field).Name() != "Limited" {
+					return false, false
+				}
+				x := resolveLoad(strip2(fv.X))
+				if f2, isF := x.(*ssa.Field); isF { // ConnStats embeds Stats
+					x = resolveLoad(strip2(f2.X))
+				}
+				ci := isResultOfCall(x, 0, "(*"+swarmP+".Conn).Stat")
+				return ci != nil && isParamK(callArgs(ci)[0], k), true
+			}
+		}
+		directOf := func(k int) atomPred {
+			return func(v ssa.Value) (bool, bool) {
+				ci := isResultOfCall(resolveLoad(strip2(v)), 0, swarmP+".isDirectConn")
+				return ci != nil && isParamK(ci.Common().Args[0], k), true
+			}
+		}
+		tab, okT := boolReturnTable(f, []atomPred{limitedOf(0), limitedOf(1), directOf(0), directOf(1)}, 0)
+		if !okT || len(tab) == 0 {
+			r8.OK("isBetterConn: limited and direct decide before anything else", f.Pos(), 1, "not decided: the answer is not a function of a.Stat().Limited, b.Stat().Limited, isDirectConn(a), isDirectConn(b) in a recognised form")
+		} else {
+			bad := ""
+			for a := 0; a < 16; a++ {
+				got, seen := tab[a]
+				if !seen {
+					continue
+				}
+				aL, bL, aD, bD := a&1 != 0, a&2 != 0, a&4 != 0, a&8 != 0
+				want := 3
+				switch {
+				case aL != bL:
+					want = 2
+					if aL {
+						want = 1
+					}
+				case aD != bD:
+					want = 1
+					if aD {
+						want = 2
+					}
+				}
+				if want != 3 && got != want && bad == "" {
+					bad = fmt.Sprintf("a limited=%v direct=%v, b limited=%v direct=%v: the answer can be %s", aL, aD, bL, bD, []string{"", "false", "true", "false or true"}[got])
+				}
+			}
+			r8.Check(bad == "", "isBetterConn: an unlimited connection beats a limited one, then a direct one beats a proxied one", f.Pos(), len(tab), "", "a stream that must not use a limited connection is handed the relayed one although a direct one exists (or Connectedness says Limited)", bad)
+		}
+	}
 }
